@@ -1,6 +1,6 @@
 (* C04 — Depth-bounded creation reaches exactly the grammar's bounded language.
    Only statements closed by [exact]; Print Assumptions; non-vacuity example. *)
-From GE Require Import Base Tape Grammar WellTyped Synth Sat Lang DistProofs SynthFrame SynthSat SynthDepth LangProofs GrowComplete DistOk.
+From GE Require Import Base Tape Grammar WellTyped Synth Sat Lang DistProofs SynthFrame SynthSat SynthDepth LangProofs GrowComplete DistOk FullRefuted EmptyListRefuted.
 Open Scope Z_scope.
 
 (* "no invalid one is reachable", and "position-independent grow never leaves the bounded language": for EVERY
@@ -32,6 +32,23 @@ Theorem C04_grow_reaches_every_program : forall d order g D,
 Proof. exact grow_reaches_language_all. Qed.
 Print Assumptions C04_grow_reaches_every_program.
 
+(* the two places where the property is FALSE of the code, as theorems about the model (known findings F34, F10): *)
+
+(* F34: on E -> Lit(int in 0..1) | Plus(E, E) with max_depth = 2 the full decider returns only programs of depth 1,
+   whatever the random source answers, although four programs with every branch at depth 2 exist *)
+Theorem C04_full_decider_refuted : forall fuel st v st',
+  st_alts st = r_alts (g_reg g4) ->
+  create_node fuel g4 (DFull 2) (TSym 0%nat) ctx0 [] st = (Ok v, st') -> vdepth v = 1.
+Proof. exact full_stops_one_level_early. Qed.
+Print Assumptions C04_full_decider_refuted.
+
+(* F10: on E -> Lit(int in 0..1) | Many(0..2 E) with max_depth = 1 grow creation never returns the valid program Many([]) *)
+Theorem C04_empty_list_refuted : forall fuel st v st',
+  st_alts st = r_alts (g_reg g10) ->
+  create_node fuel g10 (DMax 1) (TSym 0%nat) ctx0 [] st = (Ok v, st') -> v <> VNode 2%nat [VList []].
+Proof. exact grow_never_returns_the_empty_list_program. Qed.
+Print Assumptions C04_empty_list_refuted.
+
 (* the independent enumeration used by the check (Spec/Lang.v, built from the declarations only) lists only
    members of the bounded language: programs of the start symbol satisfying every refinement, no deeper than k *)
 Theorem C04_enumeration_sound : forall d r k v,
@@ -49,23 +66,23 @@ Proof. exact enum_complete. Qed.
 Print Assumptions C04_enumeration_complete.
 
 (* ---- non-vacuity: E -> Lit(int in 0..1) | Plus(E, E): the language at depth 2 has 2 + 4 programs, creation reaches one of the deepest ---- *)
-Definition ex4 : decl :=
+Definition ex4' : decl :=
   mkDecl [ mkCls None true [] None;
            mkCls (Some 0%nat) false [TAnn (TBase BInt) (MIntRange 0 1)] None;
            mkCls (Some 0%nat) false [TSym 0%nat; TSym 0%nat] None ]
          [0; 1; 2]%nat 0%nat false.
 
 Example C04_nonvacuous :
-  decl_ok ex4 = true /\ decl_live ex4 = true /\ fc_decl ex4 = true /\
+  decl_ok ex4' = true /\ decl_live ex4' = true /\ fc_decl ex4' = true /\
   noempty (VNode 2%nat [VNode 1%nat [VInt 1]; VNode 1%nat [VInt 0]]) = true /\
-  exists g, extract ex4 id_order = Ok g /\ dist_ok g = true /\ decider_validate g (DMax 2) = Ok tt /\
+  exists g, extract ex4' id_order = Ok g /\ dist_ok g = true /\ decider_validate g (DMax 2) = Ok tt /\
     length (lang (g_decl g) (g_reg g) 2) = 6%nat /\
     exists st', create_node 80 g (DMax 2) (TSym 0%nat) ctx0 [] (st_init g (Native [DI 1; DI 0; DI 1; DI 0; DI 0])) =
                 (Ok (VNode 2%nat [VNode 1%nat [VInt 1]; VNode 1%nat [VInt 0]]), st') /\
                 In (VNode 2%nat [VNode 1%nat [VInt 1]; VNode 1%nat [VInt 0]]) (lang (g_decl g) (g_reg g) 2).
 Proof.
   split; [reflexivity|]. split; [reflexivity|]. split; [reflexivity|]. split; [reflexivity|].
-  destruct (extract ex4 id_order) as [g|] eqn:E; [|vm_compute in E; discriminate].
+  destruct (extract ex4' id_order) as [g|] eqn:E; [|vm_compute in E; discriminate].
   exists g. vm_compute in E. inversion E; subst. repeat split; try reflexivity.
   eexists. split; vm_compute; [reflexivity|]. right; right; right; right. left. reflexivity.
 Qed.
